@@ -103,12 +103,16 @@ def senderAllowed (f : Filters A Sel) (s : A) : Bool :=
   else if !f.excludeSenders.isEmpty then !f.excludeSenders.contains s
   else true
 
-/-! the Foundry rules (invariant testing chapter of the Foundry book; `targetSelector` beats `excludeContract`) -/
+/-! The Foundry rules (Foundry book, "Invariant targets"; foundry `crates/evm/evm/src/executors/invariant/mod.rs`:
+`select_contracts_and_senders` filters the deployed contracts by targetContracts / excludeContracts first, THEN `select_selectors`
+→ `add_address_with_functions` inserts the contract of every targetSelectors entry whose selector list is non-empty
+("Do not add address in target contracts if no function selected"), so `targetSelector` beats `excludeContract`;
+targeted selectors beat excluded selectors; senders = targeted − excluded, or, if that is empty, anyone not excluded). -/
 
 /-- Spec: is contract `a` (≠ the test contract) a target? -/
 def specTargeted (f : Filters A Sel) (deployed : List A) (a : A) : Bool :=
   ((if f.targetContracts.isEmpty then deployed.contains a else f.targetContracts.contains a) && !f.excludeContracts.contains a)
-    || (keysOf f.targetSelectors).contains a
+    || !(selsOf f.targetSelectors a).isEmpty
 
 /-- Spec: may function `g` of target `a` be called? -/
 def specCallable (f : Filters A Sel) (a : A) (isTest : Bool) (g : FnInfo Sel) : Bool :=
